@@ -128,7 +128,7 @@ def explore(cases, workdir, limit):
     """let the extracted model enumerate the maximal schedules of every scenario; returns expanded cases
     (one per schedule) and the number of schedules per scenario"""
     os.makedirs(workdir, exist_ok=True)
-    expanded, counts = [], {}
+    expanded, counts, classes = [], {}, {}
     by_name = {c.name: c for c in cases}
     for cls in sorted(set(c.cls for c in cases)):
         src = os.path.join(workdir, "scen%s.cases" % cls)
@@ -141,9 +141,10 @@ def explore(cases, workdir, limit):
         for line in open(dst):
             line = line.rstrip("\n")
             if line.startswith("# "):
-                m = re.match(r"# (\S+): (\d+) schedules", line)
+                m = re.match(r"# (\S+): (\d+) schedules class=(\S+)", line)
                 if m:
                     counts[m.group(1)] = int(m.group(2))
+                    classes[m.group(1)] = None if m.group(3) == "none" else m.group(3)
                 continue
             t = line.split()
             if not t:
@@ -154,7 +155,14 @@ def explore(cases, workdir, limit):
                 expanded.append(cur)
             elif cur is not None:
                 cur.steps.append(line)
-    return expanded, counts
+    # the class of a scenario is decided by the MODEL (ConcClass.known_class); the Python predicate is only cross-checked
+    mism = []
+    for c in expanded:
+        mc = classes.get(c.tags["scenario"])
+        if c.tags.get("kind") != "corpus" and c.tags.get("known") != mc:
+            mism.append((c.tags["scenario"], c.tags.get("known"), mc))
+        c.tags["known"] = mc
+    return expanded, counts, mism
 
 
 def parse_sched_obs(text):
